@@ -9,10 +9,12 @@
   (`bytes_round_trip_partial`, `decoded_rewritten`, `file_round_trip_partial`), for nesting depth
   up to 10000 and under ONE explicit hypothesis on number leaves (the formatted number is a
   grammatical JSON number in range: a property of Go's float formatting that is tested
-  differentially, not proved).
+  differentially, not proved).  Section 7: beyond 10000 levels `json()` and `-o` are the error
+  `json.MarshalIndent` reports there (`nativeJson_depth_limit`, `getRootJson_depth_limit`).
 -/
 import Jqawk.Model.Driver
 import Jqawk.Model.Natives
+import Jqawk.Model.Cli
 import Jqawk.Lemmas.Render
 import Jqawk.Lemmas.Reach
 import Jqawk.Lemmas.NewValue
@@ -20,6 +22,7 @@ import Jqawk.Lemmas.JsonBytesCanon
 import Jqawk.Lemmas.JsonBytesNorm
 import Jqawk.Lemmas.JsonBytesSorted
 import Jqawk.Lemmas.JsonBytesDepth
+import Jqawk.Lemmas.JsonDepthLimit
 import Jqawk.Lemmas.JsonBytesNums
 import Jqawk.Lemmas.JsonBytesUtf8
 import Jqawk.Lemmas.JsonBytesFinite
@@ -54,10 +57,12 @@ theorem nativeJson_terminates (args : List Val) (this : Option Val) (s : St) :
   | ok u =>
     cases ht : toJValTop s.heap (args.getD 0 .unknown) <;> simp_all [pure, EM.pure]
 
-/-- consequence for `-o`: `GetRootJson` fails only for "no root" or a conversion ERROR -/
+/-- consequence for `-o`: `GetRootJson` fails only for "no root", a conversion ERROR, or a converted
+    tree that `json.MarshalIndent` refuses (`Json.tooDeep`: nested deeper than 10000, section 7) -/
 theorem getRootJson_none_iff (s : St) :
     getRootJson s = none ↔
-      s.root = none ∨ ∃ c m, s.root = some c ∧ toJValTop s.heap (s.heap.get c) = .error m := by
+      s.root = none ∨ (∃ c m, s.root = some c ∧ toJValTop s.heap (s.heap.get c) = .error m) ∨
+        ∃ c j, s.root = some c ∧ toJValTop s.heap (s.heap.get c) = .ok j ∧ Json.tooDeep j = true := by
   unfold getRootJson
   cases hr : s.root with
   | none => simp
@@ -236,11 +241,13 @@ theorem newValue_allocates_only (j : JVal) (hj : j.Plain) (s s' : St) (v : Val)
   exact ⟨he, he.get_eq, he.arr_eq, he.obj_eq⟩
 
 /-- `-o` right after reading: with the document stored in a fresh root cell, `GetRootJson`
-    writes `marshalIndent` of the normalised document -/
+    writes `marshalIndent` of the normalised document — unless that is nested deeper than
+    `json.MarshalIndent` accepts (never the case for a document the decoder delivered:
+    `decoded_depth`, `document_bytes_round_trip_partial`) -/
 theorem newValue_getRootJson (j : JVal) (hj : j.Plain) (s s' : St) (v : Val)
     (e : newValueJson j s = .ok v s') :
     getRootJson { s' with heap := (s'.heap.alloc v).2, root := some (s'.heap.alloc v).1 }
-      = some (Json.marshalIndent j.norm) := by
+      = if Json.tooDeep j.norm then none else some (Json.marshalIndent j.norm) := by
   obtain ⟨_, hrep⟩ := newValueJson_spec j s v s' hj e
   have he : HeapExt s'.heap (s'.heap.alloc v).2 := HeapExt.alloc _ _
   obtain ⟨m, hm⟩ := toJVal_of_reprB (hrep.lift _ _ _ he he.arrs_size he.objs_size) hj [] false
@@ -489,26 +496,28 @@ example : let j : JVal := .obj [(b!"b", .arr [.num b!"12", .null, .obj []]), (b!
     simp
     decide
 
-/-- FINDING (a deviation of the MODEL from Go): hypothesis (b) is needed.  `nest n` = `n + 1` arrays
-    inside each other; from 10001 levels on, the model's `marshalIndent` still produces a text, and
-    the decoder answers that text with an error, whatever follows.  Real Go never gets that far:
-    `json.Marshal` succeeds, but `json.MarshalIndent` runs the same scanner in its indent pass and
-    returns the error "exceeded max depth" (checked with go1.23: 10000 levels are written and read
-    back, 10001 levels make `MarshalIndent` fail), so jqawk's `GetRootJson`/`json()` report an error
-    there.  `Json.marshalIndent` has no error result; the model therefore differs from Go exactly
-    for values nested deeper than 10000 (a program can build one in a loop).  The theorems of this
-    section are about the model and assume `depth j ≤ 10000`, where model and Go agree. -/
+/-- Hypothesis (b) is needed for the FUNCTION `marshalIndent`.  `nest n` = `n + 1` arrays inside
+    each other; from 10001 levels on, `marshalIndent` (the encoder followed by the indentation,
+    without the indent pass's scanner) still produces a text, and the decoder answers that text with
+    an error, whatever follows.  Real Go never writes that text: `json.Marshal` succeeds, but
+    `json.MarshalIndent` runs the same scanner in its indent pass and returns the error "exceeded
+    max depth" (checked with go1.23: 10000 levels are written and read back, 10001 levels make
+    `MarshalIndent` fail), so jqawk's `GetRootJson`/`json()` report an error there.  The model's two
+    callers of `marshalIndent` test `Json.tooDeep` first and report that error (section 7:
+    `nativeJson_depth_limit`, `getRootJson_depth_limit`), so what the MODEL hands out always
+    satisfies (b): `getRootJson_bytes_partial`, `nativeJson_bytes_partial` below conclude it. -/
 theorem deep_nesting_rejected (f : Bytes → Bool) (t : Tail) (n : Nat) (h : 10000 ≤ n) (rest : Bytes) :
     depth (nest n) = n + 1 ∧ decodeOne f (marshalIndent (nest n) ++ rest) t = .error :=
   ⟨depth_nest n, nest_rejected f t n h rest⟩
 
-/-- `-o`: the bytes `GetRootJson` hands to the file are `marshalIndent` of the converted root, and
-    — under hypotheses (a), (b) on that tree — reading the file back yields `reread` of it, all
+/-- `-o`: the bytes `GetRootJson` hands to the file are `marshalIndent` of the converted root, that
+    tree is nested at most 10000 deep (hypothesis (b) HOLDS: a deeper one is the error, section 7),
+    and — under hypothesis (a) on that tree — reading the file back yields `reread` of it, all
     bytes consumed.  (With section 5: for a document just read, the tree is `j.norm`.) -/
 theorem getRootJson_bytes_partial (s : Jqawk.St) (bytes : Bytes) (h : getRootJson s = some bytes) :
     ∃ c j, s.root = some c ∧ toJValTop s.heap (s.heap.get c) = .ok j ∧ bytes = marshalIndent j ∧
-      (NumsOK numOk j → depth j ≤ maxNestingDepth →
-        decodeOne numOk bytes .eof = .value (reread j) []) := by
+      depth j ≤ maxNestingDepth ∧
+      (NumsOK numOk j → decodeOne numOk bytes .eof = .value (reread j) []) := by
   unfold getRootJson at h
   cases hr : s.root with
   | none => simp [hr] at h
@@ -516,19 +525,26 @@ theorem getRootJson_bytes_partial (s : Jqawk.St) (bytes : Bytes) (h : getRootJso
     simp only [hr] at h
     cases ht : toJValTop s.heap (s.heap.get c) with
     | ok j =>
-      simp only [ht, Option.some.injEq] at h
-      exact ⟨c, j, rfl, ht, h.symm, fun h1 h2 => by rw [← h]; exact top_eof numOk j h1 h2⟩
+      simp only [ht] at h
+      cases hd : tooDeep j with
+      | true => simp [hd] at h
+      | false =>
+        simp only [hd, Bool.false_eq_true, ↓reduceIte, Option.some.injEq] at h
+        have h2 := (tooDeep_false_iff j).1 hd
+        exact ⟨c, j, rfl, ht, h.symm, h2, fun h1 => by rw [← h]; exact top_eof numOk j h1 h2⟩
     | error m => simp [ht] at h
     | oof => simp [ht] at h
 
 /-- `json(v)`: the string the builtin returns is `marshalIndent` of the converted argument, the
-    state is unchanged, and — under hypotheses (a), (b) on that tree — the string decodes to `reread`
-    of it, all bytes consumed (with `Utf8OK`: to `canonJ` of it, by `bytes_round_trip_partial`) -/
+    state is unchanged, that tree is nested at most 10000 deep (hypothesis (b) HOLDS: a deeper one
+    is the runtime error, section 7), and — under hypothesis (a) on that tree — the string decodes
+    to `reread` of it, all bytes consumed (with `Utf8OK`: to `canonJ` of it, by
+    `bytes_round_trip_partial`) -/
 theorem nativeJson_bytes_partial (args : List Val) (this : Option Val) (s s' : Jqawk.St) (r : Val)
     (h : callNative .json args this s = .ok (.ok (some r)) s') :
     ∃ j, toJValTop s.heap (args.getD 0 .unknown) = .ok j ∧ r = .str (marshalIndent j) none ∧ s' = s ∧
-      (NumsOK numOk j → depth j ≤ maxNestingDepth →
-        decodeOne numOk (marshalIndent j) .eof = .value (reread j) []) := by
+      depth j ≤ maxNestingDepth ∧
+      (NumsOK numOk j → decodeOne numOk (marshalIndent j) .eof = .value (reread j) []) := by
   simp only [callNative, bind, EM.bind, getHeap] at h
   cases hc : checkArgCount args 1 with
   | error m => simp [hc, pure, EM.pure] at h
@@ -539,8 +555,13 @@ theorem nativeJson_bytes_partial (args : List Val) (this : Option Val) (s s' : J
     | error m => rw [ht] at h; simp [pure, EM.pure] at h
     | ok j =>
       rw [ht] at h
-      simp only [pure, EM.pure, Res.ok.injEq, Except.ok.injEq, Option.some.injEq] at h
-      exact ⟨j, rfl, h.1.symm, h.2.symm, fun h1 h2 => top_eof numOk j h1 h2⟩
+      cases hd : tooDeep j with
+      | true => simp [hd, pure, EM.pure] at h
+      | false =>
+        simp only [hd, Bool.false_eq_true, ↓reduceIte, pure, EM.pure, Res.ok.injEq, Except.ok.injEq,
+          Option.some.injEq] at h
+        have h2 := (tooDeep_false_iff j).1 hd
+        exact ⟨j, rfl, h.1.symm, h.2.symm, h2, fun h1 => top_eof numOk j h1 h2⟩
 
 example : (match callNative .json [.str b!"a<b" none] none default with
     | .ok (.ok (some (.str bytes _))) _ => bytes | _ => []) = b!"\"a\\u003cb\"" := by decide +kernel
@@ -559,7 +580,9 @@ theorem document_bytes_round_trip_partial (j : JVal) (hj : j.Plain) (hu : Utf8OK
     (e : newValueJson j s = .ok v s') :
     ∃ bytes, getRootJson { s' with heap := (s'.heap.alloc v).2, root := some (s'.heap.alloc v).1 } = some bytes ∧
       bytes = marshalIndent j.norm ∧ decodeOne numOk bytes .eof = .value j.norm [] :=
-  ⟨_, newValue_getRootJson j hj s s' v e, rfl, norm_bytes_round_trip numOk j hj hu hd hn⟩
+  ⟨_, by rw [newValue_getRootJson j hj s s' v e,
+      (tooDeep_false_iff j.norm).2 (by rw [depth_norm]; exact hd)]; rfl,
+    rfl, norm_bytes_round_trip numOk j hj hu hd hn⟩
 
 /-- non-vacuity: a document with unsorted keys, a number the encoder re-formats (`1e2` → `100`),
     an escaped string -/
@@ -666,5 +689,100 @@ example : ∃ v, decodeOne numOk b!"{\"b\":[1,{}],\"a\":\"x\",\"b\":[20,null]} "
     rw [e]
     simp only [NumsOK, NumsOKMembers, NumsOKList, and_true, true_and, numLit_iff_grammar]
     decide +kernel
+
+/-! ### 7. the depth limit of `json.MarshalIndent`
+
+  Go's `json.MarshalIndent` = `json.Marshal` followed by the indent pass (indent.go `appendIndent`),
+  and the indent pass feeds the compact text to the decoder's scanner, whose `pushParseState` fails
+  with "exceeded max depth" at the first bracket opened inside `maxNestingDepth` (10000) open ones.
+  So `json(v)` (runtime.go `nativeJson`) and `-o` (evaluator.go `GetRootJson`, cli.go "error writing
+  JSON") fail exactly for converted trees with `depth j > 10000` — `depth` counts every container,
+  empty ones too; scalars count 0 (measured on the real binary: `[[…[1]…]]` with 10000 brackets is
+  written, with 10001 it is the error; `[[…[]…]]` and `[[…{}…]]` with 10000 brackets in all are
+  written, with 10001 the error; the same for objects and mixed nestings).  The model's callers test
+  `Json.tooDeep j` (= `maxNestingDepth < Json.nesting j`, and `nesting = depth`:
+  `JsonBytes.nesting_eq_depth`) before calling `marshalIndent`. -/
+
+/-- `json(v)` for an argument that converts to the tree `j`: the runtime error when `j` is nested
+    deeper than 10000, the text `marshalIndent j` otherwise; the state is unchanged either way -/
+theorem nativeJson_depth_limit (v : Val) (this : Option Val) (s : Jqawk.St) (j : JVal)
+    (ht : toJValTop s.heap v = .ok j) :
+    callNative .json [v] this s =
+      .ok (if maxNestingDepth < depth j then .error "exceeded max depth"
+           else .ok (some (.str (marshalIndent j) none))) s := by
+  have hi := tooDeep_iff j
+  simp only [callNative, bind, EM.bind, getHeap, checkArgCount, List.length_cons, List.length_nil,
+    Nat.zero_add, BEq.rfl, ↓reduceIte, List.getD_cons_zero, ht, pure, EM.pure, hi]
+
+/-- … so, for such an argument, `json(v)` is an error EXACTLY when the nesting depth exceeds the
+    limit (and a value otherwise) -/
+theorem nativeJson_error_iff_deep (v : Val) (this : Option Val) (s : Jqawk.St) (j : JVal)
+    (ht : toJValTop s.heap v = .ok j) :
+    ((∃ m, callNative .json [v] this s = .ok (.error m) s) ↔ maxNestingDepth < depth j) ∧
+    (callNative .json [v] this s = .ok (.ok (some (.str (marshalIndent j) none))) s ↔
+      depth j ≤ maxNestingDepth) := by
+  rw [nativeJson_depth_limit v this s j ht]
+  by_cases hd : maxNestingDepth < depth j
+  · simp [hd]
+  · simp [hd, Nat.le_of_not_lt hd]
+
+/-- `GetRootJson` for a root that converts to the tree `j`: the error (`none`) when `j` is nested
+    deeper than 10000, the text otherwise -/
+theorem getRootJson_depth_limit (s : Jqawk.St) (c : CellId) (j : JVal) (hr : s.root = some c)
+    (ht : toJValTop s.heap (s.heap.get c) = .ok j) :
+    getRootJson s = if maxNestingDepth < depth j then none else some (marshalIndent j) := by
+  have hi := tooDeep_iff j
+  simp only [getRootJson, hr, ht, hi]
+
+/-- … so, for such a root, `GetRootJson` fails EXACTLY when the nesting depth exceeds the limit -/
+theorem getRootJson_none_iff_deep (s : Jqawk.St) (c : CellId) (j : JVal) (hr : s.root = some c)
+    (ht : toJValTop s.heap (s.heap.get c) = .ok j) :
+    (getRootJson s = none ↔ maxNestingDepth < depth j) ∧
+    (getRootJson s = some (marshalIndent j) ↔ depth j ≤ maxNestingDepth) := by
+  rw [getRootJson_depth_limit s c j hr ht]
+  by_cases hd : maxNestingDepth < depth j
+  · simp [hd]
+  · simp [hd, Nat.le_of_not_lt hd]
+
+/-- the command line with `-o FILE` after a successful run whose root is nested deeper than 10000:
+    "error writing JSON" — status 1, a diagnostic, nothing written, standard output as the program
+    left it (cli.go:153-157); whatever FILE is and however many inputs there were -/
+theorem deep_root_not_written (fs : List Cli.Entry) (o : Cli.Opts) (n : Nat) (r : RunResult)
+    (s : Jqawk.St) (c : CellId) (j : JVal) (ho : o.outfile ≠ []) (hok : r.outcome = .ok)
+    (hs : r.st = some s) (hr : s.root = some c) (ht : toJValTop s.heap (s.heap.get c) = .ok j)
+    (hd : maxNestingDepth < depth j) :
+    Cli.finish fs o n r = .done 1 r.out true none := by
+  have ho' : o.outfile.isEmpty = false := by cases h : o.outfile <;> simp_all
+  have hj : r.st.bind getRootJson = none := by
+    rw [hs]; exact ((getRootJson_none_iff_deep s c j hr ht).1).2 hd
+  unfold Cli.finish
+  simp only [hok, ho', hj, Bool.false_eq_true, ↓reduceIte]
+  split <;> rfl
+
+/-- an array holding an object whose one member is `x`, and a scalar: two brackets around `x` -/
+theorem depth_wrapped (x : JVal) (k : Bytes) : depth (.arr [.obj [(k, x)], .null]) = depth x + 2 := by
+  simp only [depth, depthList, depthMembers]; omega
+
+/-- the boundary, on trees (by `depth_nest`, not by evaluation): `nest n` = `n + 1` arrays, the
+    innermost EMPTY — 10000 brackets pass, 10001 do not; objects count like arrays; with a scalar
+    at the bottom the scalar does not count -/
+example : tooDeep (nest 9999) = false ∧ tooDeep (nest 10000) = true ∧
+    tooDeep (.arr [.obj [(b!"k", nest 9997)], .null]) = false ∧
+    tooDeep (.arr [.obj [(b!"k", nest 9998)], .null]) = true ∧
+    depth (.arr [.num b!"1"]) = depth (.arr []) :=
+  ⟨(tooDeep_false_iff _).2 (by rw [depth_nest]; decide), (tooDeep_iff _).2 (by rw [depth_nest]; decide),
+   (tooDeep_false_iff _).2 (by rw [depth_wrapped, depth_nest]; decide),
+   (tooDeep_iff _).2 (by rw [depth_wrapped, depth_nest]; decide), rfl⟩
+
+/-- non-vacuity of the hypotheses of `nativeJson_depth_limit` / `getRootJson_depth_limit` on one
+    state: the heap holds `[[]]` (cell 1 = the root); the conversion gives `nest 1`; `json()` and
+    `GetRootJson` return the text (depth 2 ≤ 10000) -/
+private def deepDemo : Jqawk.St :=
+  { (default : Jqawk.St) with heap := ⟨#[.arr 1, .arr 0], #[#[0], #[]], #[]⟩, root := some 1 }
+example : (match toJValTop deepDemo.heap (deepDemo.heap.get 1) with | .ok j => j == nest 1 | _ => false) = true ∧
+    (match callNative .json [.arr 0] none deepDemo with
+      | .ok (.ok (some (.str bytes _))) _ => bytes | _ => []) = b!"[\n  []\n]" ∧
+    getRootJson deepDemo = some b!"[\n  []\n]" := by
+  decide +kernel
 
 end Jqawk.C04
